@@ -174,3 +174,42 @@ Proof.
     destruct (sm_contains (t_nodes t2) p); reflexivity.
   - unfold sm_set in *. destruct (sm_get (t_children t2) p); [congruence|reflexivity].
 Qed.
+
+(* ---- step / run built from the translated bodies *)
+From TV Require Import Model.TreeGenStep Proofs.TreeProofs Proofs.TreeExamples.
+
+Lemma gen_step_eq t o : gen_step t o = step t o.
+Proof.
+  destruct o; cbn [gen_step step];
+    first [ reflexivity | apply gen_new_leaf_eq | apply gen_new_with_children_eq | apply gen_add_child_eq
+          | apply gen_insert_child_at_index_eq | apply gen_set_children_eq | apply gen_remove_child_eq
+          | apply gen_remove_child_at_index_eq | apply gen_remove_children_range_eq | apply gen_replace_child_at_index_eq
+          | apply gen_remove_eq ].
+Qed.
+
+Lemma gen_run_eq os : forall t, gen_run t os = run t os.
+Proof.
+  intro t. unfold gen_run, run. generalize (Ok (t, @nil ret)) as acc.
+  induction os as [|o r IH]; intro acc; cbn [fold_left]; [reflexivity|].
+  rewrite <- IH. f_equal. destruct acc as [x|]; cbn [bind]; [|reflexivity]. now rewrite gen_step_eq.
+Qed.
+
+Lemma gen_refines t o : WF t -> pre (abs t) o ->
+  exists t' out, gen_step t o = Ok (t', out) /\ WF t' /\
+                 ~ In (next_key t) (live (abs t)) /\
+                 spec_equiv (abs t') (fst (spec_step (abs t) o (next_key t))) /\
+                 out = snd (spec_step (abs t) o (next_key t)).
+Proof.
+  intros W P. rewrite gen_step_eq. destruct (refines_all t o W P) as [[t' [out [Hs [W' [He Ho]]]]] Hf].
+  exists t', out. split; [exact Hs|]. split; [exact W'|]. split; [exact Hf|]. split; [exact He | exact Ho].
+Qed.
+
+Lemma gen_history_from_new os : pre_hist tree_new os ->
+  exists t' outs, gen_run tree_new os = Ok (t', outs) /\ WF t' /\ length outs = length os.
+Proof. intro P. rewrite gen_run_eq. exact (proj2 (history os tree_new [] tree_new_WF P)). Qed.
+
+Lemma gen_good_history_run :
+  exists t, gen_run tree_new good_history = Ok (t, [RKey k1; RKey k2; RKey k3; RUnit; RUnit; RKey k2; RKey k2'; RUnit]) /\
+            gen_children t k1 = Ok [k3] /\ gen_parent t k2' = Ok (Some k3) /\ gen_child_count t k3 = Ok 1%N /\
+            gen_child_at_index t k1 0%N = Ok (RKey k3) /\ gen_child_at_index t k1 1%N = Ok (RErr k1 1%N 1%N).
+Proof. eexists. split; [vm_compute; reflexivity|]. vm_compute. repeat split. Qed.
